@@ -558,7 +558,7 @@ def receiveChunk (cookie : Bytes) (c : Chunk) : M Unit := do
           | .hang => crash "hang"
         | none => pure ()
   | .init .init _ tag rwnd outs ins itsn ps =>
-    if e.isServer then
+    if e.isServer && e.assoc = .closed then
       modE fun e => { e with
         rx := some { last := tsn_minus_one itsn, mis := (e.rx.map (·.mis)).getD [], dups := (e.rx.map (·.dups)).getD [] }
         reconfigResponseSeq := tsn_minus_one itsn
